@@ -276,4 +276,162 @@ theorem KS_pessimisticRollback (s : Store) (a b : Bytes) (keys : List Bytes) (T 
     · cases hk'
   · cases hk'
 
+/-! ### single-key commands: cleanup, status check, heartbeat -/
+
+theorem KS_cleanup (s s' : Store) (k : Bytes) (T cur : TS) (e : Option KErr) (hs : SInv s)
+    (h : Mvcc.cleanup s k T cur = (s', e)) : SRel (Cmd.cleanup k T cur).labels s s' := by
+  simp only [Mvcc.cleanup] at h
+  have hsame : ∀ wf, SRel (Cmd.cleanup k T cur).labels s { s with waitFor := wf } :=
+    fun wf => SRel.refl _ s wf hs.1 (fun _ => Or.inl rfl)
+  have hL : ∀ k', (Cmd.cleanup k T cur).labels k' .same := fun _ => Or.inl rfl
+  cases hl : Option.filter (fun x => x.startTS == T) (getEntry s.kv k).lock with
+  | some l =>
+    rw [hl] at h
+    obtain ⟨hlk, hT⟩ := lock_of_filter hl
+    simp only [] at h
+    split at h
+    · injection h with h1 _; subst h1
+      exact SRel_applyKeyed _ s k _ _ hs.1 (rollbackLock_keys k T) hL
+        ⟨.rollback T, Or.inr ⟨rfl, Or.inl rfl⟩, KStep.rollback l k T hlk hT⟩
+    · injection h with h1 _; subst h1; exact hsame _
+  | none =>
+    rw [hl] at h
+    simp only [] at h
+    cases hc : txnCommitInfo (getEntry s.kv k).writes T with
+    | some c =>
+      rw [hc] at h
+      simp only [] at h
+      split at h <;> (injection h with h1 _; subst h1; exact hsame _)
+    | none =>
+      rw [hc] at h
+      injection h with h1 _; subst h1
+      exact SRel_applyKeyed _ s k _ _ hs.1 (by intro a ha; simp [rollbackMarker] at ha; subst ha; rfl) hL
+        ⟨.marker T, Or.inr ⟨rfl, Or.inr rfl⟩, KStep.marker k T (no_lock_of_filter hl) (fresh_of_no_commitInfo hc)⟩
+
+theorem KS_checkTxnStatus (s s' : Store) (p : Bytes) (T caller cur : TS) (rb rp : Bool) (r : StatusResp) (hs : SInv s)
+    (h : checkTxnStatus s p T caller cur rb rp = (s', r)) : SRel (Cmd.status p T caller cur rb rp).labels s s' := by
+  simp only [checkTxnStatus] at h
+  have hsame : SRel (Cmd.status p T caller cur rb rp).labels s s := SRel.refl _ s s.waitFor hs.1 (fun _ => Or.inl rfl)
+  have hL : ∀ k', (Cmd.status p T caller cur rb rp).labels k' .same := fun _ => Or.inl rfl
+  cases hl : Option.filter (fun x => x.startTS == T) (getEntry s.kv p).lock with
+  | some l =>
+    rw [hl] at h
+    obtain ⟨hlk, hT⟩ := lock_of_filter hl
+    simp only [] at h
+    split at h
+    · split at h
+      · injection h with h1 _; subst h1
+        exact SRel_applyKeyed _ s p _ _ hs.1 (by intro a ha; simp at ha; subst ha; rfl) hL
+          ⟨.unlock, Or.inr ⟨rfl, Or.inl rfl⟩, KStep.unlock [Act.delLock p] (by intro x hx; simp at hx; exact ⟨p, hx⟩)⟩
+      · injection h with h1 _; subst h1
+        exact SRel_applyKeyed _ s p _ _ hs.1 (rollbackLock_keys p T) hL
+          ⟨.rollback T, Or.inr ⟨rfl, Or.inr (Or.inl rfl)⟩, KStep.rollback l p T hlk hT⟩
+    · split at h
+      · injection h with h1 _; subst h1; exact hsame
+      · split at h
+        · split at h
+          · injection h with h1 _; subst h1
+            exact SRel_applyKeyed _ s p _ _ hs.1 (by intro a ha; simp at ha; subst ha; rfl) hL
+              ⟨.locks T, Or.inr ⟨rfl, Or.inr (Or.inr (Or.inr rfl))⟩,
+                KStep.locks p T _ (by intro a ha; simp at ha; exact ⟨_, ha, hT⟩)
+                  (by rw [← hT]; exact (hs.2 p).lockFresh l hlk)⟩
+          · injection h with h1 _; subst h1; exact hsame
+        · injection h with h1 _; subst h1; exact hsame
+  | none =>
+    rw [hl] at h
+    simp only [] at h
+    cases hc : txnCommitInfo (getEntry s.kv p).writes T with
+    | some c =>
+      rw [hc] at h
+      simp only [] at h
+      split at h <;> (injection h with h1 _; subst h1; exact hsame)
+    | none =>
+      rw [hc] at h
+      simp only [] at h
+      split at h
+      · split at h
+        · injection h with h1 _; subst h1; exact hsame
+        · injection h with h1 _; subst h1
+          exact SRel_applyKeyed _ s p _ _ hs.1 (by intro a ha; simp [rollbackMarker] at ha; subst ha; rfl) hL
+            ⟨.marker T, Or.inr ⟨rfl, Or.inr (Or.inr (Or.inl rfl))⟩,
+              KStep.marker p T (no_lock_of_filter hl) (fresh_of_no_commitInfo hc)⟩
+      · injection h with h1 _; subst h1; exact hsame
+
+theorem KS_heartBeat (s s' : Store) (k : Bytes) (T adv : TS) (r : Except KErr Nat) (hs : SInv s)
+    (h : heartBeat s k T adv = (s', r)) : SRel (Cmd.heartbeat k T adv).labels s s' := by
+  simp only [heartBeat] at h
+  have hsame : SRel (Cmd.heartbeat k T adv).labels s s := SRel.refl _ s s.waitFor hs.1 (fun _ => Or.inl rfl)
+  have hL : ∀ k', (Cmd.heartbeat k T adv).labels k' .same := fun _ => Or.inl rfl
+  cases hl : Option.filter (fun x => x.startTS == T) (getEntry s.kv k).lock with
+  | none => rw [hl] at h; injection h with h1 _; subst h1; exact hsame
+  | some l =>
+    rw [hl] at h
+    obtain ⟨hlk, hT⟩ := lock_of_filter hl
+    simp only [] at h
+    split at h
+    · injection h with h1 _; subst h1; exact hsame
+    · split at h
+      · injection h with h1 _; subst h1
+        exact SRel_applyKeyed _ s k _ _ hs.1 (by intro a ha; simp at ha; subst ha; rfl) hL
+          ⟨.locks T, Or.inr ⟨rfl, rfl⟩,
+            KStep.locks k T _ (by intro a ha; simp at ha; exact ⟨_, ha, hT⟩)
+              (by rw [← hT]; exact (hs.2 k).lockFresh l hlk)⟩
+      · injection h with h1 _; subst h1; exact hsame
+
+/-! ### GC, delete range -/
+
+theorem KS_gc (s s' : Store) (a b : Bytes) (sp : TS) (blocked : Option Bytes) (hs : SInv s)
+    (h : Mvcc.gc s a b sp = (s', blocked)) : SRel (Cmd.gc a b sp).labels s s' := by
+  simp only [Mvcc.gc] at h
+  cases hl : gcLoop (s.kv.filter fun p => inRange a b p.1) sp [] with
+  | error e => rw [hl] at h; injection h with h1 _; subst h1; exact SRel.refl _ s s.waitFor hs.1 (fun _ => Or.inl rfl)
+  | ok acts =>
+    rw [hl] at h; injection h with h1 _; subst h1
+    have hacts := gcLoop_ok _ _ _ _ hl
+    simp only [List.nil_append] at hacts
+    apply SRel_applyBatch _ s acts _ hs.1
+    intro k
+    rw [hacts, filter_flatMap_key _ (fun k e => gcWrites k e.writes sp true) k (filter_sorted _ _ hs.1)
+        (fun k' e' => gcWrites_key k' e'.writes sp true), findKey_filter s.kv (fun k => inRange a b k) k]
+    by_cases hin : inRange a b k = true
+    · simp only [hin, if_true]
+      cases hf : findKey s.kv k with
+      | none => simp only [List.foldl_nil]; exact ⟨.same, Or.inl rfl, KStep.same⟩
+      | some p =>
+        obtain ⟨_, hk⟩ := findKey_some hf
+        have he : getEntry s.kv k = p.2 := by rw [getEntry_eq_find, hf]
+        simp only [hk, he]
+        exact ⟨.gc sp, Or.inr ⟨hin, rfl⟩, KStep.gc k sp⟩
+    · simp only [hin]; exact ⟨.same, Or.inl rfl, KStep.same⟩
+
+theorem KS_deleteRange (s : Store) (a b : Bytes) (hs : SInv s) :
+    SRel (Cmd.deleteRange a b).labels s (Mvcc.deleteRange s a b) := by
+  refine ⟨filter_sorted _ _ hs.1, fun k => ?_⟩
+  simp only [Mvcc.deleteRange]
+  rw [getEntry_eq_find (List.filter _ _), findKey_filter s.kv (fun k => !(inRange a b k)) k]
+  by_cases hin : inRange a b k = true
+  · simp only [hin, Bool.not_true, Bool.false_eq_true, if_false]
+    exact ⟨.wipe, Or.inr ⟨hin, rfl⟩, KStep.wipe⟩
+  · simp only [Bool.not_eq_true] at hin
+    simp only [hin, Bool.not_false, if_true]
+    rw [← getEntry_eq_find]
+    exact ⟨.same, Or.inl rfl, KStep.same⟩
+
+/-! ### every command refines the per-key transition system -/
+
+theorem run_refines (s : Store) (c : Cmd) (hs : SInv s) (hok : c.Ok s) : SRel c.labels s (c.run s) := by
+  cases c with
+  | prewrite r => exact KS_prewrite s _ r _ hs rfl
+  | plock r => exact KS_pessimisticLock s _ r _ hs hok rfl
+  | prollback a b keys T F => exact KS_pessimisticRollback s a b keys T F hs
+  | commit keys T C => exact KS_commit s _ keys T C _ hs hok.1 hok.2 rfl
+  | rollback keys T => exact KS_rollback s _ keys T _ hs hok rfl
+  | cleanup k T cur => exact KS_cleanup s _ k T cur _ hs rfl
+  | status p T caller cur rb rp => exact KS_checkTxnStatus s _ p T caller cur rb rp _ hs rfl
+  | heartbeat k T adv => exact KS_heartBeat s _ k T adv _ hs rfl
+  | resolve a b T C => exact KS_resolveLock s a b T C hs hok
+  | bresolve a b infos => exact KS_batchResolveLock s a b infos hs hok
+  | gc a b sp => exact KS_gc s _ a b sp _ hs rfl
+  | deleteRange a b => exact KS_deleteRange s a b hs
+
 end CGV.Mvcc
